@@ -16,8 +16,9 @@ import (
 )
 
 type TNode struct {
-	Leaf int     `json:"leaf,omitempty"` // >0: leaf id
+	Leaf int     `json:"leaf,omitempty"` // >0: leaf id; the same id twice = the very same error value twice
 	Kids []TNode `json:"kids,omitempty"` // join node
+	Same int     `json:"same,omitempty"` // >0: reuse the error value built for the Same-th join node (a shared sub-tree)
 }
 
 type C19Plan struct {
@@ -25,6 +26,7 @@ type C19Plan struct {
 	Cfg       *Cfg      `json:"cfg,omitempty"` // alternative: a real configuration error
 	Planted   []Planted `json:"planted,omitempty"`
 	ViaReconf bool      `json:"via_reconfigure,omitempty"`
+	ReuseSeq  bool      `json:"reuse_seq,omitempty"` // obtain the iterator once and use the same iter.Seq value for every consumer
 }
 
 type c19 struct{}
@@ -52,16 +54,22 @@ func (c19) Parties() map[string]string {
 	return map[string]string{"cfgerrors.All": "real", "cors.NewMiddleware/Reconfigure (error producer)": "real", "errors.Join": "real (stdlib)", "iterator consumer": "stub (simulator-owned, cancels at the planned yield)"}
 }
 func (c19) FaultKinds() []string {
-	return []string{"F8_cancel_range_break", "F8_cancel_callback_false", "F8_cancel_pull_stop"}
+	return []string{"F8_cancel_range_break", "F8_cancel_callback_false", "F8_cancel_pull_stop", "F8_reentrant_range_over_same_iterator"}
 }
 func (c19) Probes() []string {
-	return []string{"cancel_at_first", "cancel_at_last", "cancel_between_siblings_of_nested_join", "join_of_one", "real_cfg_error_tree", "no_cancel_full_traversal", "real_cfg_error_count_checked"}
+	return []string{"cancel_at_first", "cancel_at_last", "cancel_between_siblings_of_nested_join", "join_of_one", "real_cfg_error_tree", "no_cancel_full_traversal", "real_cfg_error_count_checked", "same_error_value_twice_in_tree", "same_iterator_value_reused"}
 }
 
 func genTree(r *R, depth int, next *int) TNode {
 	if depth <= 0 || r.P(0.35) {
+		if *next > 0 && r.P(0.08) {
+			return TNode{Leaf: r.Range(1, *next)} // an error value that already occurs elsewhere in the tree
+		}
 		*next++
 		return TNode{Leaf: *next}
+	}
+	if r.P(0.04) {
+		return TNode{Same: r.Range(1, 4)} // a sub-tree that already occurs elsewhere (if that many joins exist yet)
 	}
 	n := r.Range(1, 5)
 	if r.P(0.15) {
@@ -77,11 +85,11 @@ func genTree(r *R, depth int, next *int) TNode {
 func (c19) Gen(r *R, tier string) any {
 	if r.P(0.25) {
 		c := genCfg(r)
-		return &C19Plan{Cfg: &c, Planted: genPlanted(r, r.Range(1, 8)), ViaReconf: r.P(0.5)}
+		return &C19Plan{Cfg: &c, Planted: genPlanted(r, r.Range(1, 8)), ViaReconf: r.P(0.5), ReuseSeq: r.P(0.4)}
 	}
 	id := 0
 	t := genTree(r, r.Range(0, 6), &id)
-	return &C19Plan{Tree: &t}
+	return &C19Plan{Tree: &t, ReuseSeq: r.P(0.4)}
 }
 
 func (c19) Decode(b []byte) (any, error) {
@@ -94,22 +102,47 @@ type leafErr struct{ id int }
 
 func (l *leafErr) Error() string { return fmt.Sprintf("cors: leaf %d", l.id) }
 
-func buildErr(t TNode, joins *int, joinOfOne *bool) error {
-	if t.Leaf > 0 {
-		if t.Leaf%2 == 0 {
-			return &cfgerrors.UnacceptableMethodError{Value: fmt.Sprint(t.Leaf), Reason: "invalid"}
+type errBuilder struct {
+	leaves    map[int]error
+	joinsSeen []error
+	joins     int
+	joinOfOne bool
+	shared    bool
+}
+
+func (b *errBuilder) build(t TNode) error {
+	if t.Same > 0 {
+		if t.Same <= len(b.joinsSeen) {
+			b.shared = true
+			return b.joinsSeen[t.Same-1]
 		}
-		return &leafErr{t.Leaf}
+		t = TNode{Leaf: 1000 + t.Same} // not that many joins yet: a fresh leaf instead
+	}
+	if t.Leaf > 0 {
+		if e, ok := b.leaves[t.Leaf]; ok {
+			b.shared = true
+			return e
+		}
+		var e error
+		if t.Leaf%2 == 0 {
+			e = &cfgerrors.UnacceptableMethodError{Value: fmt.Sprint(t.Leaf), Reason: "invalid"}
+		} else {
+			e = &leafErr{t.Leaf}
+		}
+		b.leaves[t.Leaf] = e
+		return e
 	}
 	var kids []error
 	for _, k := range t.Kids {
-		kids = append(kids, buildErr(k, joins, joinOfOne))
+		kids = append(kids, b.build(k))
 	}
-	*joins++
+	b.joins++
 	if len(kids) == 1 {
-		*joinOfOne = true
+		b.joinOfOne = true
 	}
-	return errors.Join(kids...)
+	e := errors.Join(kids...)
+	b.joinsSeen = append(b.joinsSeen, e)
+	return e
 }
 
 // flatten is the independent reference: explicit stack, no recursion, no iterators.
@@ -148,7 +181,12 @@ func (c19) Exec(plan any, c *Ctx) *Violation {
 	var err error
 	joins, joinOfOne := 0, false
 	if p.Tree != nil {
-		err = buildErr(*p.Tree, &joins, &joinOfOne)
+		b := &errBuilder{leaves: map[int]error{}}
+		err = b.build(*p.Tree)
+		joins, joinOfOne = b.joins, b.joinOfOne
+		if b.shared {
+			c.hit("same_error_value_twice_in_tree")
+		}
 	} else {
 		bad := plantAll(*p.Cfg, p.Planted)
 		var pan any
@@ -177,6 +215,12 @@ func (c19) Exec(plan any, c *Ctx) *Violation {
 	}
 	want := flatten(err)
 	n := len(want)
+	all := func() iter.Seq[error] { return cfgerrors.All(err) }
+	if p.ReuseSeq {
+		seq := cfgerrors.All(err) // ONE iterator value, ranged over again and again (also after a break)
+		all = func() iter.Seq[error] { return seq }
+		c.hit("same_iterator_value_reused")
+	}
 	c.logf("tree with %d leaves, %d joins", n, joins)
 	if joinOfOne {
 		c.hit("join_of_one")
@@ -188,7 +232,7 @@ func (c19) Exec(plan any, c *Ctx) *Violation {
 		var got []error
 		pan := catch(func() {
 			i := 0
-			for e := range cfgerrors.All(err) {
+			for e := range all() {
 				got = append(got, e)
 				if i == k {
 					break
@@ -210,7 +254,7 @@ func (c19) Exec(plan any, c *Ctx) *Violation {
 		cancelled := false
 		pan = catch(func() {
 			i := 0
-			cfgerrors.All(err)(func(e error) bool {
+			all()(func(e error) bool {
 				if cancelled {
 					after++
 					return false
@@ -238,7 +282,7 @@ func (c19) Exec(plan any, c *Ctx) *Violation {
 		// consumer 3: iter.Pull + stop
 		got = got[:0]
 		pan = catch(func() {
-			next, stop := iter.Pull(cfgerrors.All(err))
+			next, stop := iter.Pull(all())
 			defer stop()
 			for i := 0; ; i++ {
 				e, ok := next()
@@ -273,6 +317,34 @@ func (c19) Exec(plan any, c *Ctx) *Violation {
 		}
 		if k > 0 && k < n-1 && joins >= 2 {
 			c.hit("cancel_between_siblings_of_nested_join")
+		}
+	}
+	// fault F8b: re-entrant use of ONE iterator value — while an outer range over
+	// seq is suspended at position k, a complete inner range over the same seq
+	// runs; both must see exactly the leaves
+	if p.ReuseSeq && n >= 2 && n <= 64 {
+		seq := cfgerrors.All(err)
+		for _, k := range []int{0, n / 2, n - 1} {
+			var outer, inner []error
+			pan := catch(func() {
+				i := 0
+				for e := range seq {
+					outer = append(outer, e)
+					if i == k {
+						for e2 := range seq {
+							inner = append(inner, e2)
+						}
+					}
+					i++
+				}
+			})
+			c.hit("F8_reentrant_range_over_same_iterator")
+			if pan != "" {
+				return &Violation{Class: "panic", Key: "reentrant", Detail: fmt.Sprintf("nested range over the same iterator value at outer position %d of %d panicked: %s", k, n, pan)}
+			}
+			if !sameErrs(inner, want) || !sameErrs(outer, want) {
+				return &Violation{Class: "wrong-leaves", Key: "reentrant", Detail: fmt.Sprintf("nested range over the same iterator value at outer position %d of %d: outer saw %v, inner saw %v, want %v both times", k, n, outer, inner, want)}
+			}
 		}
 	}
 	// every yielded error of a real configuration error is a non-nil leaf
